@@ -2,6 +2,8 @@
    (pd call (L S:param*) (L S:on*) (D (name cell)*) (D (name input)*) <expiry input> T:<today>)
        -> ok (T <result> (L (T arg*)*))          result = (T S:"value" v) | (T S:"norows" data|N) | (T S:"table" <table>)
    (pd join (L S:on*) (D (name cell)*) (D (name input)*))    -> ok <table>
+   (pd callr (L S:param*) (L S:on*) (D (name S:column)*) B:<if_none> (D (name cell)*) (D (name input)*) <expiry input> T:<today>)
+   (pd joinr (L S:on*) (D (name S:column)*) (D (name cell)*) (D (name input)*))     the same with `renames`
    input = a cell (scalar) or a table `(D (col (L cell*))*)`; the lifted function is `f(*args) = ('f',) + args`. -/
 import PygModel.PerDict
 
@@ -38,6 +40,12 @@ def defaultsOf : Val → Option (List (String × Cell))
       | _ => Option.none
   | _ => Option.none
 
+def renamesOf : Val → Option (List (String × String))
+  | .dict kvs => kvs.mapM fun (k, v) => match v with
+      | .cell (.str c) => some (k, c)
+      | _ => Option.none
+  | _ => Option.none
+
 def fModel (args : List Cell) : Val := .tuple (.cell (.str "f") :: args.map .cell)
 
 def tag (s : String) (v : Val) : Val := .tuple [.cell (.str s), v]
@@ -64,6 +72,30 @@ def handle1 (op : String) (args : List Sexp) : Option String := do
       match ← perdictable fModel ps on defs ins exp today with
       | .ok (r, log) =>
           pure ("ok " ++ (Val.tuple [resultVal r, .list (log.map fun a => .tuple (a.map .cell))]).render)
+      | .error e => pure ("err " ++ e.render)
+  | "callr", [ps, on, rens, ifn, defs, ins, exp, today] =>
+      let ps ← strsOf ps; let on ← strsOf on
+      let rens ← renamesOf (← Val.ofSexp rens)
+      let ifn ← match ← Val.ofSexp ifn with
+        | .cell (.bool b) => some b
+        | _ => Option.none
+      let defs ← defaultsOf (← Val.ofSexp defs)
+      let ins ← inputsOf (← Val.ofSexp ins)
+      let exp ← inputOf (← Val.ofSexp exp)
+      let today ← match ← Val.ofSexp today with
+        | .cell (.dt us) => some us
+        | _ => Option.none
+      match ← perdictableR fModel ps on rens defs ins exp today ifn with
+      | .ok (r, log) =>
+          pure ("ok " ++ (Val.tuple [resultVal r, .list (log.map fun a => .tuple (a.map .cell))]).render)
+      | .error e => pure ("err " ++ e.render)
+  | "joinr", [on, rens, defs, ins] =>
+      let on ← strsOf on
+      let rens ← renamesOf (← Val.ofSexp rens)
+      let defs ← defaultsOf (← Val.ofSexp defs)
+      let ins ← inputsOf (← Val.ofSexp ins)
+      match ← pdJoinR ins on rens defs with
+      | .ok t => pure ("ok " ++ t.toVal.render)
       | .error e => pure ("err " ++ e.render)
   | "join", [on, defs, ins] =>
       let on ← strsOf on
